@@ -446,3 +446,26 @@ Definition rt_ok (d : prop) : bool :=
 Definition c04_proj (o : fout) : fout :=
   FO (fo_json o) [] (fo_number o) (fo_kind o) (fo_rep o) (fo_opt o) false (fo_val o)
      (fo_ext o) (fo_list o) (fo_key o) (fo_desc o).
+
+(* ---- root schemas: an object or a oneof with its name, description and properties ---- *)
+(* visitObjectNode / visitOneofNode: the message carries (j5.ext.v1.message).object / .oneof
+   and the description as its leading comment; buildObjectSchema / buildOneofSchema +
+   isOneofWrapper read the kind from that option, the description through commentDescription *)
+Inductive rkind := RObject | ROneof.
+Record root_decl := RD { rd_kind : rkind; rd_name : str; rd_desc : str; rd_props : list prop }.
+Record root_out := RO { ro_name : str; ro_comment : str; ro_msgopt : option rkind; ro_fields : list fout }.
+Record rroot := RR { rr_kind : rkind; rr_name : str; rr_desc : str; rr_props : list rprop }.
+
+Definition write_root (env : enum_env) (d : root_decl) : outcome root_out :=
+  obind (write_object env (rd_props d))
+        (fun os => Ok (RO (rd_name d) (rd_desc d) (Some (rd_kind d)) os)).
+
+Definition read_root (env : enum_env) (o : root_out) : outcome rroot :=
+  match ro_msgopt o with
+  | Some k => obind (read_object env (ro_fields o))
+                    (fun ps => Ok (RR k (ro_name o) (clean_desc (ro_comment o)) ps))
+  | None => Err "message without (j5.ext.v1.message).object / .oneof: outside the model"
+  end.
+
+(* the fragment at root level: the description survives commentDescription, the properties lie in rt_ok *)
+Definition rt_root (d : root_decl) : bool := desc_plain (rd_desc d) && forallb rt_ok (rd_props d).
